@@ -150,9 +150,9 @@ func runC01(c *Check) {
 	c.internSymmetry(encTargets)
 	c.scratchProducers()
 	c.wireConstants()
-	c.scratchReset()
+	c.scratchReset("C01-R2")
 	c.unitPadding("C01-R6")
-	c.scratchAssignedOnEveryPath()
+	c.scratchAssignedOnEveryPath("C01-R7")
 	c.subMessageOmission()
 }
 
@@ -161,9 +161,9 @@ func runC01(c *Check) {
 // assigned inside a loop over its owners is assigned on every path through an iteration
 // (the "no reference: write 0" arm may not be dropped, or a reference removed after an
 // earlier Write/Copy is still written).
-func (c *Check) scratchAssignedOnEveryPath() {
+func (c *Check) scratchAssignedOnEveryPath(rule string) {
 	p := c.P
-	pre := c.anchorFn("C01-R7", "profile", "(*Profile).preEncode")
+	pre := c.anchorFn(rule, "profile", "(*Profile).preEncode")
 	if pre == nil {
 		return
 	}
@@ -250,13 +250,13 @@ func (c *Check) scratchAssignedOnEveryPath() {
 		}
 		key := "assigned:" + g.T + "." + g.F
 		if skipped {
-			c.bad("C01-R7", key, p.relFile(pos[g]), "preEncode leaves "+g.T+"."+g.F+" untouched on some path through its loop: the value written by an earlier serialization of the same profile is written again (a mapping or function reference cleared after a Write/Copy comes back on the next one)")
+			c.bad(rule, key, p.relFile(pos[g]), "preEncode leaves "+g.T+"."+g.F+" untouched on some path through its loop: the value written by an earlier serialization of the same profile is written again (a mapping or function reference cleared after a Write/Copy comes back on the next one)")
 		} else {
-			c.ok("C01-R7", key, p.relFile(pos[g]), g.T+"."+g.F+" is assigned on every path through its loop in preEncode", "no path through one iteration avoids all stores to it")
+			c.ok(rule, key, p.relFile(pos[g]), g.T+"."+g.F+" is assigned on every path through its loop in preEncode", "no path through one iteration avoids all stores to it")
 		}
 	}
 	if len(gs) < 8 {
-		c.undecided("C01-R7", "assigned:count", p.relFile(pre.Pos()), fmt.Sprintf("expected at least 8 scalar scratch fields assigned in loops of preEncode, found %d", len(gs)))
+		c.undecided(rule, "assigned:count", p.relFile(pre.Pos()), fmt.Sprintf("expected at least 8 scalar scratch fields assigned in loops of preEncode, found %d", len(gs)))
 	}
 }
 
@@ -384,9 +384,9 @@ func sameLoad(a, b ssa.Value) bool {
 
 // scratchReset (R2b): a scratch slice that preEncode rebuilds with append must be reset
 // first, otherwise a second serialization of the same profile repeats its contents.
-func (c *Check) scratchReset() {
+func (c *Check) scratchReset(rule string) {
 	p := c.P
-	pre := c.anchorFn("C01-R2", "profile", "(*Profile).preEncode")
+	pre := c.anchorFn(rule, "profile", "(*Profile).preEncode")
 	if pre == nil {
 		return
 	}
@@ -437,14 +437,14 @@ func (c *Check) scratchReset() {
 				}
 			}
 			if ok2 {
-				c.ok("C01-R2", key, p.relFile(st.Pos()), T+"."+F+" is rebuilt from scratch on every serialization", "a reset (nil or make) of the field dominates the appending loop in preEncode")
+				c.ok(rule, key, p.relFile(st.Pos()), T+"."+F+" is rebuilt from scratch on every serialization", "a reset (nil or make) of the field dominates the appending loop in preEncode")
 			} else {
-				c.bad("C01-R2", key, p.relFile(st.Pos()), T+"."+F+" is extended with append in preEncode without being reset first: serializing the same profile twice writes its contents twice, so Write/Copy are not idempotent and the bytes differ")
+				c.bad(rule, key, p.relFile(st.Pos()), T+"."+F+" is extended with append in preEncode without being reset first: serializing the same profile twice writes its contents twice, so Write/Copy are not idempotent and the bytes differ")
 			}
 		}
 	}
 	if n < 2 {
-		c.undecided("C01-R2", "reset:count", p.relFile(pre.Pos()), "fewer append-built scratch fields than expected in preEncode")
+		c.undecided(rule, "reset:count", p.relFile(pre.Pos()), "fewer append-built scratch fields than expected in preEncode")
 	}
 }
 
